@@ -92,6 +92,8 @@ class Gen:
         w = r.random()
         if w < 0.45:
             lvl = r.choice(LEVELS) if f in ("levels", "mixed") else r.choice([4, 4, 6, 8])
+            if f in ("faults", "mixed") and r.random() < 0.2:
+                return "LN %d %d %d" % (a, g, r.choice([5, 20, 60]))
             return "%s %d %d %d %d" % ("L" if r.random() < 0.8 else "LS", a, g, lvl, self.rnd_len())
         if w < 0.55:
             return "K %d" % self.rnd_dt()
@@ -141,7 +143,7 @@ class Gen:
         if r.random() < 0.25:
             injs = []
             for _ in range(r.choice([1, 1, 2])):
-                site = r.choice([1, 2, 2, 3, 4, 5])
+                site = r.choice([1, 2, 2, 3, 4, 5, 7, 7, 8])
                 k = r.choice([1, 1, 2, 3])
                 ops = []
                 for _ in range(r.choice([1, 1, 2, 3])):
@@ -255,6 +257,20 @@ def directed_scripts(variant):
         "cfg grace=10 soft=4 hard=8 tcap=2", "sink 0 lvl=0", "logger 0 sinks=0 lvl=0", "start",
         "T 1 start", "T 2 start", "T 3 start", "L 1 0 4 10", "L 2 0 4 10", "L 3 0 4 10", "K 1000000"] + ["P"] * 5 + [
         "L 2 0 4 10", "K 1000", "L 3 0 4 10", "K 500", "L 1 0 4 10", "P @2.3=K_20000 @3.1=K_1", "P", "P", "K 1000000", "P", "P", "P", "P", "Q"]))
+    # the cut-off is sampled once per pass: time advancing at any further clock read of the backend must not matter
+    out.append(("dir_second_clock_read", [
+        "cfg grace=10 soft=4 hard=8 tcap=2", "sink 0 lvl=0", "logger 0 sinks=0 lvl=0", "start",
+        "T 1 start", "T 2 start", "L 1 0 4 10", "L 2 0 4 10", "K 1000000", "P", "P", "P", "P",
+        "L 1 0 4 10", "K 1000", "L 2 0 4 10", "P @7.2=K_20000 @7.3=K_20000", "P", "P", "K 1000000", "P", "P", "P", "Q"]))
+    # named arguments must not leak into a later statement that reuses the transit slot after a sink fault
+    out.append(("dir_named_after_fault", [
+        "cfg grace=0 soft=4 hard=8 tcap=2", "sink 0 lvl=0 wthrow=1", "logger 0 sinks=0 lvl=0", "start", "T 1 start",
+        "LN 1 0 10", "P", "L 1 0 4 10", "P", "L 1 0 4 10", "P", "L 1 0 4 10", "P", "L 1 0 4 10", "P", "LN 1 0 10", "P", "L 1 0 4 10", "P", "P", "Q"]))
+    # drops that land while the backend is reporting earlier drops of the same thread must still be reported
+    if variant % 2 == 1:
+        out.append(("dir_drop_during_report", [
+            "cfg grace=0 soft=4 hard=8 tcap=2", "sink 0 lvl=0", "logger 0 sinks=0 lvl=0", "start", "T 1 start",
+            "L 1 0 4 300", "L 1 0 4 300", "L 1 0 4 300", "P", "P @8.1=L_1_0_4_400,L_1_0_4_400", "P", "P", "K 1000", "P", "P", "Q", "X"]))
     if variant % 2 == 0:
         # blocked producer resumes after the backend made room (C09 end to end)
         out.append(("dir_blocked_resume", [
@@ -367,13 +383,13 @@ def oracles(lines):
         op = w[0]
         if res in ("noop", "bad-op"):
             return
-        if op in ("L", "LS", "LB"):
+        if op in ("L", "LS", "LB", "LN"):
             m = re.match(r"id=(\d+)", res)
             if not m:
                 return
             i = int(m.group(1))
             a, g = int(w[1]), int(w[2])
-            lvl = 9 if op == "LB" else int(w[3])
+            lvl = 9 if op == "LB" else 4 if op == "LN" else int(w[3])
             if op == "LB":
                 backtrace_used = True
             st = stmts.setdefault(i, dict(actor=a, g=g, lvl=lvl, ts=t_now, enq=None, ret=None, op=op, sinks=list(loggers_sinks.get(g, []))))
@@ -440,7 +456,7 @@ def oracles(lines):
             live_logged.add(st["actor"])
             complete[i] = order_idx[0]
             order_idx[0] += 1
-        elif st["op"] in ("LS", "LB") and res.endswith("bytes=0") and "ev=1" in res:
+        elif st["op"] in ("LS", "LB", "LN") and res.endswith("bytes=0") and "ev=1" in res:
             st["ret"] = False   # static macro on a dropping queue: dropped
             dropped_log_calls += 1
 
@@ -479,6 +495,11 @@ def oracles(lines):
             if p[2].startswith("E"):
                 return
             i, lvl, ts = int(p[2]), int(p[3]), int(p[4])
+            has_na = len(p) > 5 and p[5].startswith("na")
+            stx = stmts.get(i)
+            if stx is not None and has_na != (stx["op"] == "LN"):
+                viol.append(("C10", "statement id=%d was handed to sink %d %s key/value pairs although it was logged %s named placeholders" % (
+                    i, s, "with" if has_na else "without", "with" if stx["op"] == "LN" else "without")))
             written[(s, i)] = written.get((s, i), 0) + 1
             write_order.append((s, i, lvl, ts))
             last_write_idx[(s, i)] = widx[0]
